@@ -208,7 +208,7 @@ fn owns(focus: Focus, class: &str, lo: u64) -> bool {
 		Focus::C11 => matches!(class, "acked_lost" | "acked_write_missing" | "not_prefix" | "read_error" | "scan_disagree" | "get_scan_disagree" | "panic") || (class == "open_failed" && lo > 0),
 		Focus::C07 => matches!(
 			class,
-			"open_failed" | "reopen_differs" | "probe_shadowed" | "probe_commit_failed" | "close_failed" | "background_error" | "read_error" | "panic" | "recovery_differs"
+			"open_failed" | "reopen_differs" | "probe_shadowed" | "probe_commit_failed" | "close_failed" | "background_error" | "read_error" | "panic" | "recovery_not_idempotent"
 		),
 	}
 }
@@ -277,6 +277,13 @@ impl Sweep<'_> {
 				if let Some(mut v) = r.violation {
 					if v.class == "not_prefix" && self.focus == Focus::C02 && acked_write_missing(&r.contents, model, lo, hi) {
 						v.class = "acked_write_missing".into();
+					}
+					// C07: a crash point of a later generation that lies before that session's first
+					// commit is a crash during / right after recovery: it must recover to the very
+					// state the first recovery produced
+					if self.focus == Focus::C07 && gen > 1 && n <= first_commit && matches!(v.class.as_str(), "acked_lost" | "not_prefix" | "future_data") {
+						v.class = "recovery_not_idempotent".into();
+						v.detail = format!("crash during/after recovery and before any new commit: the next recovery yields different contents: {}", v.detail);
 					}
 					let where_ = format!(
 						"generation {} crash point {}/{} ({}) model {:?} tear {:?}: ",
